@@ -303,6 +303,39 @@ func main() {
 		}
 		mu.Unlock()
 	})
+	// a line longer than 64 KiB spread over several writes (io.Copy hands over 32 KiB chunks): every subset of
+	// the cut positions around the 32 KiB / 64 KiB marks and the line end, plus regular 1000-byte and 32 KiB chunkings
+	{
+		huge := strings.Repeat("H", 70000) + "\nab\n"
+		nb := len(huge) - 1
+		marks := []int{0, 32767, 65534, 65535, 65536, 69998, 69999, 70000}
+		var plans [][]int
+		for m := 0; m < 1<<len(marks); m++ {
+			cuts := make([]int, nb)
+			for i, p := range marks {
+				if m&(1<<i) != 0 {
+					cuts[p] = 1
+				}
+			}
+			plans = append(plans, cuts)
+		}
+		for _, chunk := range []int{1000, 32768} {
+			cuts := make([]int, nb)
+			for p := chunk - 1; p < nb; p += chunk {
+				cuts[p] = 1
+			}
+			plans = append(plans, cuts)
+		}
+		par.For(len(plans), func(i int) {
+			r := newRunner()
+			st := plan(huge, plans[i], false, 0)
+			if msg := r.exec(st, zap.InfoLevel, false); msg != "" {
+				report(huge, st, zap.InfoLevel, false, msg)
+			}
+			evals.Add(1)
+			calls.Add(int64(len(st)))
+		})
+	}
 	// special streams: every single cut position x action, and every pair of cut positions
 	par.For(len(special), func(si int) {
 		r := newRunner()
@@ -337,7 +370,7 @@ func main() {
 		evals.Add(e)
 	})
 	sample = append(sample, map[string]any{"special_stream": "é\\n€x split inside the multi-byte runes"})
-	run.Assume = []string{"stream alphabet {a,b,LF} up to the stated length plus listed special streams (multi-byte, invalid UTF-8, NUL, CR, 5000-byte line)"}
+	run.Assume = []string{"stream alphabet {a,b,LF} up to the stated length plus listed special streams (multi-byte, invalid UTF-8, NUL, CR, 5000-byte line, a 70000-byte line cut around the 32 KiB / 64 KiB marks)"}
 	run.Finish(map[string]any{
 		"states":                        len(states),
 		"transitions":                   calls.Load(),
